@@ -604,6 +604,52 @@ Qed.
 Theorem stdlib_functions_clean : forall rx t, call_clean (stdlib_call rx t).
 Proof. exact stdlib_call_clean. Qed.
 
+(* THE SIMULATION, stated directly between the checker model and the interpreter models (files without attribute
+   shorthands): a statement the checker accepts in environment env, run in a state whose frames have the shape of env,
+   ends in a state whose frames have the shape of the environment the checker continues with; if it fails, the error is
+   not a variable error of an unscoped name — for the strict interpreter: UndefinedVariable only if THIS statement contains
+   a scoped read, DuplicateVariable only if it contains a scoped target *)
+Theorem checked_stmt_no_variable_errors_strict : forall (rx : Type) t fl cfg glob (regexes : list rx) find call cx env s s' env' u,
+  check_stmt cx env s = Ok (s', env', u) -> f_shorthands fl = [] ->
+  (forall x, cx_global cx x = match globals_get glob x with Some _ => true | None => false end) -> call_clean call ->
+  forall fuel le st p, shape (s_locals st) = shape env ->
+  match exec_stmt t fl cfg glob regexes find call fuel le s' st p with
+  | Ok (_, st', _) => shape (s_locals st') = shape env'
+  | Err e => match root_cause e with
+             | ECannotAssignImmutableVariable | EUndefinedCapture => False
+             | EUndefinedVariable => stmt_sr s' = true
+             | EDuplicateVariable => stmt_sd s' = true
+             | _ => True
+             end
+  | _ => True
+  end.
+Proof.
+  intros rx t fl cfg glob regexes find call cx env s s' env' u Hc Hsh HG Hcall fuel le st p Hshape.
+  destruct (checked_stmt_scope_discipline _ _ _ _ _ _ Hc) as [V1 V2]. rewrite V2.
+  apply (scope_invariant_preserved_strict rx t fl cfg glob regexes find call (cx_global cx) (stmt_sr s') (stmt_sd s') HG Hcall);
+    [unfold vs_shorthands; rewrite Hsh; reflexivity| |exact Hshape].
+  apply vs_stmt_flag; auto.
+Qed.
+Theorem checked_stmt_no_variable_errors_lazy : forall (rx : Type) t fl cfg glob (regexes : list rx) find call cx env s s' env' u,
+  check_stmt cx env s = Ok (s', env', u) -> f_shorthands fl = [] ->
+  (forall x, cx_global cx x = match globals_get glob x with Some _ => true | None => false end) -> call_clean call ->
+  forall fuel le st p, shape (l_locals st) = shape env ->
+  match lexec_stmt t fl cfg glob regexes find call fuel le s' st p with
+  | Ok (_, st', _) => shape (l_locals st') = shape env'
+  | Err e => match root_cause e with
+             | EUndefinedVariable | ECannotAssignImmutableVariable | EUndefinedCapture => False
+             | EDuplicateVariable => scoped_duplicate e = true
+             | _ => True
+             end
+  | _ => True
+  end.
+Proof.
+  intros rx t fl cfg glob regexes find call cx env s s' env' u Hc Hsh HG Hcall fuel le st p Hshape.
+  destruct (checked_stmt_scope_discipline _ _ _ _ _ _ Hc) as [V1 V2]. rewrite V2.
+  apply (scope_invariant_preserved_lazy rx t fl cfg glob regexes find call (cx_global cx) HG Hcall);
+    [unfold vs_shorthands; rewrite Hsh; reflexivity|exact V1|exact Hshape].
+Qed.
+
 (* ---- Examples ---- *)
 (* (identifier)* @id {
      var n = 0   let x = 1
